@@ -20,6 +20,11 @@ func TestCheck(t *testing.T) {
 	if appsys.Part(t, env, run, "C05") {
 		return
 	}
+	// API part (api_test.go): alerts are fired and resolved by POST /api/v2/alerts bodies through the real handler;
+	// direct oracle only. true = the replay file held a case of that engine and has been handled.
+	if apiPart(t, env, run) {
+		return
+	}
 	var scs []sysrun.Scenario
 	if env.Replay != "" {
 		var sc sysrun.Scenario
@@ -32,7 +37,7 @@ func TestCheck(t *testing.T) {
 		r := vh.NewRand(env.Seed)
 		n := env.N(250, 8)
 		for i := 0; i < n; i++ {
-			scs = append(scs, sysrun.Gen(r.Fork(), sysrun.GenOpts{MaxOps: 10, Faults: i%3 == 0, Silences: i%5 == 1, MultiInt: i%2 == 0, Flap: i%2 == 1}))
+			scs = append(scs, sysrun.Gen(r.Fork(), sysrun.GenOpts{MaxOps: 10, Faults: i%3 == 0, Silences: i%5 == 1, MultiInt: i%2 == 0, Flap: i%2 == 1, RouteLbl: i%3 != 2}))
 		}
 	}
 	for i := range scs {
